@@ -18,7 +18,7 @@ import (
 	"golang.org/x/tools/go/types/typeutil"
 )
 
-const e1StateCap = 96
+const e1StateCap = 3000
 
 type fstate struct {
 	facts map[string]*Term
